@@ -459,6 +459,17 @@ def check_transform(program, rep):
                 installed += list(cn.args[0].elts)
             elif fn == 'self.transform_functions.append' and cn.args:
                 installed.append(cn.args[0])
+            elif fn == 'self.transform_functions.extendleft' and cn.args \
+                    and isinstance(cn.args[0], (ast.Tuple, ast.List)):
+                # deque.extendleft prepends one by one: the order reverses
+                installed = list(reversed(cn.args[0].elts)) + installed
+            elif fn == 'self.transform_functions.appendleft' and cn.args:
+                installed = [cn.args[0]] + installed
+            elif fn in ('self.transform_functions.extend',
+                        'self.transform_functions.extendleft') and cn.args \
+                    and isinstance(cn.args[0], ast.Name) and cn.args[0].id \
+                    in init.params():
+                pass        # functions supplied by the caller, default ()
             elif fn.startswith('self.transform_functions.'):
                 installed.append(None)
         good = len(installed) == 2 and installed[0] is not None and norm(
@@ -621,10 +632,32 @@ def check_markers(program, rep):
         fi = FuncInfo(f.module, None, mf.name, mf)
         exits = w.run(fi, None)
 
+        # single-return functions nested in the transformer are applied like
+        # lambdas
+        nested = {}
+        for st_ in ast.walk(f.node):
+            if isinstance(st_, ast.FunctionDef) and st_ is not f.node \
+                    and st_ is not mf:
+                b_ = strip_docstring(st_.body)
+                if len(b_) == 1 and isinstance(b_[0], ast.Return) \
+                        and b_[0].value is not None and not (
+                            st_.args.vararg or st_.args.kwarg
+                            or st_.args.kwonlyargs):
+                    nested[st_.name] = ast.Lambda(st_.args, b_[0].value)
+
         def resolve(text, items):
             """Substitute loop items of tuple displays, apply lambdas."""
             import copy
             tree = ast.parse(text, mode='eval').body
+            if nested:
+                class N(ast.NodeTransformer):
+                    def visit_Call(self, n):
+                        n = self.generic_visit(n)
+                        if isinstance(n.func, ast.Name) and n.func.id \
+                                in nested:
+                            n.func = copy.deepcopy(nested[n.func.id])
+                        return n
+                tree = N().visit(tree)
 
             class R(ast.NodeTransformer):
                 def visit_Subscript(self, n):
@@ -696,7 +729,9 @@ def check_markers(program, rep):
                                       f'object_from_string(<name>): {val}')
                 elif rx in ('RESOURCE_STRING_REGEX', 'HANDLE_STRING_REGEX'):
                     keys = {f"root_map.split_char.join({g}.split('.'))"
-                            for g in grp}
+                            for g in grp} | {
+                        f"{g}.replace('.', root_map.split_char)"
+                        for g in grp}
                     want = {f'root_map[{k}]' for k in keys} if rx.startswith(
                         'RES') else {f'root_map.get({k})' for k in keys}
                     if val not in want:
